@@ -42,8 +42,15 @@ static enum DeviceStatusCode
 mock_open(struct Driver* d, uint64_t device_id, struct Device** out)
 {
     struct MockDriver* self = (struct MockDriver*)d;
-    if (!out || device_id >= self->n)
+    if (!out)
         return Device_Err;
+    if (device_id >= self->n) {
+        // a driver that fails late: it has stored the device in *out, then finds out it cannot deliver it and releases it itself
+        struct Device* late = (struct Device*)calloc(1, sizeof(*late));
+        *out = late;
+        free(late);
+        return Device_Err;
+    }
     struct Device* dev = (struct Device*)calloc(1, sizeof(*dev));
     if (!dev)
         return Device_Err;
